@@ -8,6 +8,7 @@ import (
 	"strings"
 
 	"github.com/cloudwego/eino/compose"
+	"github.com/cloudwego/eino/schema"
 	"github.com/cloudwego/eino/vsched"
 
 	"verif/lib/gprog"
@@ -70,10 +71,48 @@ type spec struct {
 	process bool   // ProcessState inside node bodies
 	yield   bool
 	call    string
+	// lazy: the handlers are STREAM state handlers that return a lazily converted stream whose convert function
+	// calls ProcessState with the handler's context: that access happens after the handler returned, while the
+	// stream is consumed, next to the other users of the state
+	lazy bool
+}
+
+func withKey(v Val, k string) Val {
+	n := Val{}
+	for x, y := range v {
+		n[x] = y
+	}
+	n[k] = "1"
+	return n
+}
+
+func (sp *spec) lazyConv(w *world, ctx context.Context, who, mark string, in *schema.StreamReader[Val]) *schema.StreamReader[Val] {
+	return schema.StreamReaderWithConvert(in, func(v Val) (Val, error) {
+		err := compose.ProcessState(ctx, func(_ context.Context, s *St) error {
+			w.section(who, s, sp.yield)
+			return nil
+		})
+		return withKey(v, mark), err
+	})
 }
 
 func (sp *spec) nodeOpts(w *world, scope, key string) []compose.GraphAddNodeOpt {
 	var o []compose.GraphAddNodeOpt
+	if sp.lazy {
+		if sp.pre {
+			o = append(o, compose.WithStreamStatePreHandler(func(ctx context.Context, in *schema.StreamReader[Val], s *St) (*schema.StreamReader[Val], error) {
+				w.section(scope+"pre:"+key, s, sp.yield)
+				return sp.lazyConv(w, ctx, scope+"conv-pre:"+key, "pre-"+key, in), nil
+			}))
+		}
+		if sp.post {
+			o = append(o, compose.WithStreamStatePostHandler(func(ctx context.Context, out *schema.StreamReader[Val], s *St) (*schema.StreamReader[Val], error) {
+				w.section(scope+"post:"+key, s, sp.yield)
+				return sp.lazyConv(w, ctx, scope+"conv-post:"+key, "post-"+key, out), nil
+			}))
+		}
+		return o
+	}
 	if sp.pre {
 		o = append(o, compose.WithStatePreHandler(func(ctx context.Context, in Val, s *St) (Val, error) {
 			w.section(scope+"pre:"+key, s, sp.yield)
@@ -181,7 +220,7 @@ func (sp *spec) build() (func(), func(x *vsched.Exec) (string, error)) {
 	var resumeNote string
 	main := func() {
 		switch sp.shape {
-		case "fan2", "fan3":
+		case "fan2", "fan3", "fan2lazy":
 			keys := []string{"a", "b"}
 			if sp.shape == "fan3" {
 				keys = append(keys, "c")
@@ -450,7 +489,7 @@ func (sp *spec) build() (func(), func(x *vsched.Exec) (string, error)) {
 
 func main() {
 	c := harness.Init("C11")
-	c.Res.Rule = "scenario = stateful graph (Pregel / all-predecessor / eager Workflow) with 2-3 parallel nodes x which state users are present (state pre-handlers, post-handlers, ProcessState in node bodies; each a read-yield-write increment with enter/exit markers in the state's log) x shape (fan-out of 2 or 3, stateful nested graph next to a parent node, two concurrent runs of one compiled graph, interrupt-after + resume with a StateModifier) x Invoke/Stream; every interleaving of executor goroutines, run loop and callers within the preemption bound, both map orders; distinct/non-trivial = distinct scheduling signatures of scenarios with >= 2 of them"
+	c.Res.Rule = "scenario = stateful graph (Pregel / all-predecessor / eager Workflow) with 2-3 parallel nodes x which state users are present (state pre-handlers, post-handlers, ProcessState in node bodies; each a read-yield-write increment with enter/exit markers in the state's log) x shape (fan-out of 2 or 3, fan-out of 2 with STREAM state handlers that return lazily converted streams whose convert function calls ProcessState, stateful nested graph next to a parent node, two concurrent runs of one compiled graph, interrupt-after + resume with a StateModifier) x Invoke/Stream; every interleaving of executor goroutines, run loop and callers within the preemption bound, both map orders; distinct/non-trivial = distinct scheduling signatures of scenarios with >= 2 of them"
 	c.Res.Assumptions = []string{
 		"sequential consistency at synchronisation granularity; critical-section bodies are atomic apart from their explicit yield",
 		"no happens-before state caching: a missing lock makes the state plain shared memory",
@@ -463,13 +502,16 @@ func main() {
 	}
 	type users struct{ pre, post, process bool }
 	us := []users{{false, false, true}, {true, true, false}, {true, true, true}, {false, true, true}, {true, false, true}}
-	for _, shape := range []string{"fan2", "nested", "tworuns", "resume", "fan3"} {
+	for _, shape := range []string{"fan2", "fan2lazy", "nested", "tworuns", "resume", "fan3"} {
 		for _, mode := range []string{"pregel", "dag", "workflow"} {
 			if mode == "workflow" && (shape == "nested" || shape == "resume") {
 				continue
 			}
 			for _, u := range us {
 				for _, call := range []string{"invoke", "stream"} {
+					if shape == "fan2lazy" && !(u.process && (u.pre || u.post)) {
+						continue // needs a stream handler and a body that uses the state next to it
+					}
 					if quick && shape == "fan3" && !(u.pre && u.post && u.process) {
 						continue
 					}
@@ -479,7 +521,7 @@ func main() {
 					if quick && call == "stream" && !(u.pre && u.post) {
 						continue
 					}
-					sp := &spec{mode: mode, shape: shape, pre: u.pre, post: u.post, process: u.process, yield: true, call: call}
+					sp := &spec{mode: mode, shape: shape, pre: u.pre, post: u.post, process: u.process, yield: true, call: call, lazy: shape == "fan2lazy"}
 					sp.name = fmt.Sprintf("%s/%s/pre%v-post%v-process%v/%s", shape, mode, u.pre, u.post, u.process, call)
 					b := bounds
 					if shape == "resume" {
